@@ -65,3 +65,22 @@ Example C09_ex4_body :
   check_recursion [(0, TObj [(false, TRef [1])]); (1, TObj [(false, TRef [0])])]
                   (TObj [(false, TRef [1])]) = Some false.
 Proof. vm_compute. reflexivity. Qed.
+
+(* ---------- the repaired checker (fix 9a9fdc3): the root walk, then every named type as a root of its own ---------- *)
+Theorem C09_check_all_iff_inhabited : forall g root b,
+  check_all g root = Some b ->
+  (b = true <-> (Inhabited g root /\ forall n body, lookup g n = Some body -> Inhabited g body)).
+Proof. exact check_all_iff_inhabited. Qed.
+Print Assumptions C09_check_all_iff_inhabited.
+
+Theorem C09_check_all_terminates : forall g root, check_all g root <> None.
+Proof. exact check_all_terminates. Qed.
+Print Assumptions C09_check_all_terminates.
+
+(* a required loop behind an optional property is found although the root has an inhabitant *)
+Example C09_ex_loop_behind_optional :
+  check_all [(0, TObj [(true, TRef [1])]); (1, TObj [(false, TRef [1])])] (TRef [0]) = Some false.
+Proof. vm_compute. reflexivity. Qed.
+Example C09_ex_optional_loop_accepted :
+  check_all [(0, TObj [(true, TRef [1])]); (1, TObj [(true, TRef [1])])] (TRef [0]) = Some true.
+Proof. vm_compute. reflexivity. Qed.
